@@ -1986,13 +1986,19 @@ fn setup_process_substitution(
 
     // Asynchronously spawn off the subshell; we intentionally don't block on its
     // completion.
+    // N.B. Like pipeline stages, it gets a thread of its own: whoever reads from (or writes to)
+    // the substitution may do so synchronously on a runtime worker, and a task spawned from
+    // that worker could then wait behind it forever.
     let subshell_cmd = subshell_cmd.to_owned();
-    tokio::spawn(async move {
-        // Intentionally ignore the result of the subshell command.
-        let _ = subshell_cmd
-            .list
-            .execute(&mut subshell, &child_params)
-            .await;
+    tokio::task::spawn_blocking(move || {
+        let rt = tokio::runtime::Handle::current();
+        rt.block_on(async move {
+            // Intentionally ignore the result of the subshell command.
+            let _ = subshell_cmd
+                .list
+                .execute(&mut subshell, &child_params)
+                .await;
+        });
     });
 
     // Starting at 63 (a.k.a. 64-1)--and decrementing--look for an
